@@ -41,9 +41,29 @@ pub(crate) fn mask_string_literals(tokens: &str) -> String {
     let mut masked = String::with_capacity(tokens.len());
     let mut in_string = false;
     let mut escaped = false;
-    for ch in tokens.chars() {
-        if !in_string {
-            in_string = ch == '"';
+    // inside a raw string (r"..", r#".."#): the text that closes it; no escapes in there
+    let mut raw_close: Option<String> = None;
+    for (pos, ch) in tokens.char_indices() {
+        if let Some(close) = &raw_close {
+            if ch == '"' && tokens[pos..].starts_with(close.as_str()) {
+                raw_close = None;
+                masked.push(ch);
+            } else {
+                masked.extend(std::iter::repeat(' ').take(ch.len_utf8()));
+            }
+        } else if !in_string {
+            if ch == '"' {
+                let hashes = masked.chars().rev().take_while(|c| *c == '#').count();
+                let prefix = &masked[..masked.len() - hashes];
+                let is_raw = prefix.ends_with('r')
+                    && !prefix[..prefix.len() - 1]
+                        .ends_with(|c: char| c.is_alphanumeric() || c == '_');
+                if is_raw {
+                    raw_close = Some(format!("\"{}", "#".repeat(hashes)));
+                } else {
+                    in_string = true;
+                }
+            }
             masked.push(ch);
         } else if !escaped && ch == '"' {
             in_string = false;
@@ -54,6 +74,34 @@ pub(crate) fn mask_string_literals(tokens: &str) -> String {
         }
     }
     masked
+}
+
+/// Value of the Rust string literal at the start of `text`, as the compiler reads it: all escapes
+/// decoded (`\u{..}`, `\x..`, `\r`, `\0`, line continuations) and raw strings taken as written
+pub(crate) fn leading_string_literal(text: &str) -> Option<String> {
+    let end = if text.starts_with('"') {
+        let mut escaped = false;
+        text.char_indices().skip(1).find_map(|(i, c)| {
+            let closes = !escaped && c == '"';
+            escaped = !escaped && c == '\\';
+            closes.then_some(i + 1)
+        })?
+    } else {
+        let hashes = text
+            .strip_prefix('r')?
+            .chars()
+            .take_while(|c| *c == '#')
+            .count();
+        let body = 1 + hashes + 1;
+        if !text[1 + hashes..].starts_with('"') {
+            return None;
+        }
+        let close = format!("\"{}", "#".repeat(hashes));
+        body + text[body..].find(&close)? + close.len()
+    };
+    syn::parse_str::<syn::LitStr>(&text[..end])
+        .ok()
+        .map(|literal| literal.value())
 }
 
 /// Byte position of `word` in `text` where it stands as a whole identifier: `min` is not found in
@@ -293,6 +341,11 @@ impl ValidatorParser {
         if let Some(msg_pos) = find_word(&mask_string_literals(content), "message") {
             if let Some(eq_pos) = content[msg_pos..].find('=') {
                 let after_eq = &content[msg_pos + eq_pos + 1..].trim_start();
+
+                // A Rust string literal (escaped or raw) has the value the compiler gives it
+                if let Some(message) = leading_string_literal(after_eq) {
+                    return Some(message);
+                }
 
                 // Try to find string in quotes (either " or ')
                 if let Some(quote_char) = after_eq.chars().next() {
